@@ -1,5 +1,7 @@
-; base.smt2 - symbols the contract language's built-ins refer to (bytes(), oidv(), deep values of boxed arguments)
-(declare-sort OidV 0)
-(declare-fun oidv ((Array Int Int) Int Int) OidV)
+; base.smt2 - symbols the contract language's built-ins refer to (bytes(), oidv(), oid("..."), deep values of boxed arguments)
+; An OBJECT IDENTIFIER value is the list of its arcs (snoc list, so that a literal OID is a ground term).
+(declare-datatypes ((OidV 0)) (((onil) (osnoc (oinit OidV) (olast Int)))))
+(define-fun-rec oidv ((a (Array Int Int)) (o Int) (n Int)) OidV
+  (ite (<= n 0) onil (osnoc (oidv a o (- n 1)) (select a (+ o (- n 1))))))
 (declare-fun bytesv ((Array Int (_ BitVec 8)) Int Int) Bytes)
 (declare-fun deepOf (Any) Deep)
